@@ -91,6 +91,9 @@ func genCase(t *rapid.T) Case {
 		}
 		sp := world.Spec{Name: string(letters[i]), Provider: rapid.Bool().Draw(t, "prov")}
 		sp.RespawnKilled = rapid.IntRange(0, 3).Draw(t, "respawn") == 0
+		if rapid.IntRange(0, 4).Draw(t, "lateSpawn") == 0 {
+			sp.LateSpawn = rapid.IntRange(1, 2).Draw(t, "lateSpawns")
+		}
 		switch rapid.IntRange(0, 9).Draw(t, "lifeFail") {
 		case 0:
 			sp.FailOnKill = true
